@@ -1,0 +1,66 @@
+// MIT License
+//
+// Copyright (c) 2022-2026 GoAkt Team
+//
+// Permission is hereby granted, free of charge, to any person obtaining a copy
+// of this software and associated documentation files (the "Software"), to deal
+// in the Software without restriction, including without limitation the rights
+// to use, copy, modify, merge, publish, distribute, sublicense, and/or sell
+// copies of the Software, and to permit persons to whom the Software is
+// furnished to do so, subject to the following conditions:
+//
+// The above copyright notice and this permission notice shall be included in all
+// copies or substantial portions of the Software.
+//
+// THE SOFTWARE IS PROVIDED "AS IS", WITHOUT WARRANTY OF ANY KIND, EXPRESS OR
+// IMPLIED, INCLUDING BUT NOT LIMITED TO THE WARRANTIES OF MERCHANTABILITY,
+// FITNESS FOR A PARTICULAR PURPOSE AND NONINFRINGEMENT. IN NO EVENT SHALL THE
+// AUTHORS OR COPYRIGHT HOLDERS BE LIABLE FOR ANY CLAIM, DAMAGES OR OTHER
+// LIABILITY, WHETHER IN AN ACTION OF CONTRACT, TORT OR OTHERWISE, ARISING FROM,
+// OUT OF OR IN CONNECTION WITH THE SOFTWARE OR THE USE OR OTHER DEALINGS IN THE
+// SOFTWARE.
+
+//go:build verif
+
+package net
+
+import (
+	"io"
+	stdnet "net"
+
+	"google.golang.org/protobuf/proto"
+)
+
+// Verification harness only: entry points for the unexported frame decoders.
+
+// VerifReadProtoFrame is readProtoFrame.
+func VerifReadProtoFrame(reader io.Reader, framePool *FramePool, maxFrameSize uint32) ([]byte, error) {
+	return readProtoFrame(reader, framePool, maxFrameSize)
+}
+
+// VerifUnmarshalProtoResponse is (*Client).unmarshalProtoResponse.
+func (c *Client) VerifUnmarshalProtoResponse(frame []byte) (proto.Message, *Metadata, error) {
+	return c.unmarshalProtoResponse(frame)
+}
+
+// VerifFramePool returns the client's frame pool and frame limit.
+func (c *Client) VerifFramePool() (*FramePool, uint32) { return c.framePool, c.maxFrameSize }
+
+// VerifServeConn runs the server's per-connection read loop (handleConn) on nc
+// in the calling goroutine and returns when the loop exits.
+func (ps *ProtoServer) VerifServeConn(nc stdnet.Conn) {
+	conn := &TCPConn{}
+	conn.Reset(nc)
+	conn.SetServer(ps.server)
+	conn.Start()
+	ps.handleConn(conn)
+}
+
+// VerifHeaders returns a copy of the headers and the absolute deadline (unix nanoseconds, 0 = none).
+func (m *Metadata) VerifHeaders() (map[string]string, int64) {
+	out := make(map[string]string, len(m.headers))
+	for k, v := range m.headers {
+		out[k] = v
+	}
+	return out, m.deadlineNano
+}
